@@ -709,8 +709,11 @@ for glyph data whose active tuples all carry explicit point numbers and decode (
 well-formed decoded tuples.  MISSING: active tuples that cover all points (`accumulate_dense_deltas`):
 their contribution `fxScaled s d` equals the decoded contribution of the all-explicit `DTuple`
 (`apply_deltas_eq_spec`: explicit points get `s·d` exactly), which is not composed here; and the
-derivation of `SparseDecodes` from the packed streams themselves (`sparse_fast_path_eq_iterator` +
-`accumulate_sparse_buffer_eq_workOf` give it for streams of valid runs with distinct in-range points). -/
+decoded tuples' own side conditions `hts` (lengths, bounds) are still listed separately although they
+follow from `SparseWF`.  `SparseDecodes` is now DERIVED inside the theorem from `SparseWF`: the
+well-formedness of the packed streams as skrifa reads them, whose only real restriction is that the
+point numbers are distinct (out-of-range numbers are skipped by skrifa and by the decoded tuple alike;
+a duplicate makes skrifa add the deltas twice — excluded; examples below). -/
 /-- **`simple_glyph_within_rounding_partial`** — from the glyph-variation-data BYTES to both output
 coordinates of every contour point. -/
 theorem simple_glyph_within_rounding_partial (ax : Nat) (shared : List (List Int)) (bytes : List Nat)
@@ -727,7 +730,7 @@ theorem simple_glyph_within_rounding_partial (ax : Nat) (shared : List (List Int
     (c : Nat × Nat) (hc : c ∈ contoursOf 0 ends) (k : Nat) (hk1 : c.1 ≤ k) (hk2 : k ≤ c.2)
     (h4 : 4 ≤ points.length)
     (hlen : (activeTuples ax shared g coords).length = ts.length)
-    (hdec : ∀ p ∈ (activeTuples ax shared g coords).zip ts, SparseDecodes points g.sharedPts p.1 p.2)
+    (hswf : ∀ p ∈ (activeTuples ax shared g coords).zip ts, SparseWF points g.sharedPts Δ p.1 p.2)
     (hwrap : |(ts.map fun t => (t.s : ℚ) *
           (((Iup.inferSpec (points.drop c.1) ((t.ds.drop c.1).take (c.2 - c.1 + 1)) (t.has.drop c.1) (k - c.1)).1.1 : ℚ) /
             (Iup.inferSpec (points.drop c.1) ((t.ds.drop c.1).take (c.2 - c.1 + 1)) (t.has.drop c.1) (k - c.1)).1.2)).sum|
@@ -753,6 +756,15 @@ theorem simple_glyph_within_rounding_partial (ax : Nat) (shared : List (List Int
             (Iup.inferSpec (points.drop c.1) ((t.ds.drop c.1).take (c.2 - c.1 + 1)) (t.has.drop c.1) (k - c.1)).2.2)).sum / 65536)|
       ≤ 1 / 2 + (ts.map fun t =>
           (((Iup.inferSpec (points.drop c.1) ((t.ds.drop c.1).take (c.2 - c.1 + 1)) (t.has.drop c.1) (k - c.1)).2.2 : ℚ) - 1) / 2).sum / 65536 := by
+  have hdec : ∀ p ∈ (activeTuples ax shared g coords).zip ts, SparseDecodes points g.sharedPts p.1 p.2 := by
+    intro p hp
+    have hw := hswf p hp
+    have hmem : p.2 ∈ ts := (List.of_mem_zip (show (p.1, p.2) ∈ _ from hp)).2
+    obtain ⟨_, _, hs, _, _⟩ := hts p.2 hmem
+    have hsc : p.2.s = p.1.2 := by
+      obtain ⟨_, pts, xs, ys, bs, rest, _, _, _, _, _, _, _, _, _, e⟩ := hw
+      rw [e]
+    exact hw.decodes points g.sharedPts Δ M p.1 p.2 hM.1 hΔ (by omega) (by rw [← hsc]; omega) hpts
   rw [simple_glyph_eq_applyDecoded_partial ax shared bytes coords points ends g ts hr h4 hlen hdec]
   obtain ⟨d1, e1, b1⟩ := applied_outline_within_rounding np points ends ts hpl hwf hne M Δ hM hΔ hfit hpts hts c hc k hk1 hk2 hwrap
   obtain ⟨d2, e2, b2⟩ := applied_outline_within_rounding_y np points ends ts hpl hwf hne M Δ hM hΔ hfit hpts hts c hc k hk1 hk2 hwrapy
@@ -829,5 +841,22 @@ example : tupleScalar 1 [16384] none [8192] = some 32768 ∧ tupleScalar 1 [1638
 -- exact 65536/3 = 21845.33…, the code gives 21845 (scale rounds to 21845)
 example : Iup.fxInterpAxis 0 0 3 (3 * 65536 + 65536) 1 65536 - 65536 = 21845 ∧
     Iup.readerAxis 0 0 3 65536 1 = (65536, 3) := by decide
+
+-- `SparseWF` is satisfiable: one explicit point 0 with delta (5, 7) in a glyph of 5 points …
+example : SparseWF [(0, 0), (0, 0), (500, 0), (0, 0), (0, 0)] none 10
+    (⟨0xA000, some [16384], none, [1, 0, 0, 0, 5, 0, 7]⟩, 65536)
+    ⟨65536, listedDs [0] [5] [7] 5, listedFlags [0] [5] 5⟩ := by
+  refine ⟨by decide, [0], [5], [7], [0, 7], [], rfl, by decide, by decide, by decide, by decide, rfl, rfl,
+    by decide, by decide, rfl⟩
+-- … and violated by a stream that lists point 0 twice (skrifa would add its deltas twice)
+example (dt : DTuple) : ¬ SparseWF [(0, 0), (0, 0), (500, 0), (0, 0), (0, 0)] none 10
+    (⟨0xA000, some [16384], none, [2, 1, 0, 0, 1, 5, 5, 1, 7, 7]⟩, 65536) dt := by
+  rintro ⟨_, pts, xs, ys, bs, rest, hit, _, _, _, hnd, _⟩
+  have : PackedDeltas.ptIterOf ((⟨0xA000, some [16384], none, [2, 1, 0, 0, 1, 5, 5, 1, 7, 7]⟩ : RawTuple).ptsAndDeltas none).1
+      = .list [0, 0] := rfl
+  rw [this] at hit
+  injection hit with hit
+  subst hit
+  simp at hnd
 
 end FontVerif.C10
